@@ -82,7 +82,7 @@ def gen_bytes(w, r):
         return {"op": "bytes", "bi": bi, "method": meth, "args": [v]}
     if meth == "assign":
         k = r.randrange(0, min(size, 12) + 1)
-        return {"op": "bytes", "bi": bi, "method": meth, "args": [rbytes(r, k)]}
+        return {"op": "bytes", "bi": bi, "method": meth, "args": [rbytes(r, k)], "as": r.choice(["bytearray", "bytearray", "bytes"])}
     if meth == "edit":
         if cur == 0:
             return None
